@@ -124,6 +124,7 @@ public:
   // native "scripted force" task
   std::string cb_colvar;
   double cb_force = 0.0;
+  std::string cb_energy;     // if not empty: the callback also issues the script command "cv addenergy <cb_energy>"
   int cb_calls = 0;
   int run_force_callback() override;
 
